@@ -152,6 +152,23 @@ Theorem C17_emissivity_unbiased_partial :
 Proof. split; [exact triangle_areas_sum_to_area | split; [exact expected_linear | exact expected_constant]]. Qed.
 Print Assumptions C17_emissivity_unbiased_partial.
 
+(* every grid_samples >= 1, PARTIAL in the same sense as C17_emissivity_unbiased_partial: the expectation of the
+   n-draw estimator (defined through linearity of expectation as the average of the per-draw expectations, each
+   draw having its own uniform u) is sum_j (a_j / A) mean_j whatever n is -- no bias of order 1/n. *)
+Theorem C17_expectation_for_every_sample_count_partial :
+  forall areas means n, (1 <= n)%nat -> expected_emissivity areas means n == expected_estimate areas means.
+Proof. exact expected_emissivity_any_count. Qed.
+Print Assumptions C17_expectation_for_every_sample_count_partial.
+
+(* a deterministic stratified triangle choice (mid-point of stratum i of the cumulative area) does not have that
+   expectation: two triangles of areas 1 and 3 with means 0 and 1, one sample *)
+Theorem C17_stratified_choice_refuted :
+  exists areas means, (forall a, In a areas -> 0 < a) /\
+    ~ stratified_estimate areas means 1 == expected_estimate areas means /\
+    expected_emissivity areas means 1 == expected_estimate areas means.
+Proof. exact stratified_choice_refuted. Qed.
+Print Assumptions C17_stratified_choice_refuted.
+
 (* non-vacuity: a concave pentagon (given anticlockwise), its stored form, raysect's triangulation *)
 Definition witness : list pt := [(1, 0); (2, 0); (2, 1); (3 # 2, 1 # 2); (1, 1)].
 Definition witness_tris : list tri := [(4, 0, 1); (1, 2, 3); (1, 3, 4)]%nat.
